@@ -406,10 +406,40 @@ let samename_stream oc =
     if G.emit_case oc ~stream:"c06-deep" ~extra env "main" ctx0 then incr emitted else incr skipped)
     [ 1; 5; 14; 15; 16; 17; 18; 25; 40 ]
 
+(* other routes from a sandboxed template to further templates: the function form of include (whatever the engine makes
+   of it: a stub that refuses, or an implementation), a template that only extends a layout and defines no block of
+   its own or only other blocks, reached directly and through include only. Only one fact is stated: the forbidden
+   spy at the end of the route is never invoked. *)
+let routes_stream oc =
+  let spy = print (filt (var "x") "spy" []) and spyf = print (call "spyfn" [ var "n" ]) in
+  let sbx name = [ text "["; include_ ~sandboxed:true (lit_str name); text "]" ] in
+  let pol = Some ([ "spya"; "upper" ], [ "spyfna"; "include"; "parent"; "block"; "source" ]) in
+  let extra shape = [ "pos", JS ("route-" ^ shape); "nest", JL []; "depth", JI 1; "pol", JS "allbut"; "boundary", JS "plain";
+                      "target", JS "filter:spy"; "target_allowed", JB false; "must_fail", JB false;
+                      "forbidden_reached", JL []; "forbidden_inside", JL [ JS "filter:spy"; JS "function:spyfn" ] ] in
+  let inner = ("inner", [ text "<"; spy; spyf; text ">" ]) in
+  let layout = ("layout", [ text "L("; spy; M.NBlock (bs "b", [ spyf ]); text ")" ]) in
+  List.iter (fun (shape, tpls) ->
+    let env = { G.tpls = tpls; G.custom = customs; G.policy = pol } in
+    if G.emit_case oc ~stream:"c06-routes" ~extra:(extra shape) env "main" ctx0 then incr emitted else incr skipped)
+    ([ "include-function", [ inner; ("sb0", [ print (call "include" [ lit_str "inner" ]) ]); ("main", sbx "sb0") ];
+       "include-function-vars", [ inner; ("sb0", [ print (call "include" [ lit_str "inner"; hash [ ("x", lit_str "q") ] ]) ]); ("main", sbx "sb0") ];
+       "include-function-without-context", [ inner; ("sb0", [ print (call "include" [ lit_str "inner"; hash [ ("x", lit_str "q"); ("n", lit_int 1) ]; M.ELit (M.LBool false) ]) ]); ("main", sbx "sb0") ];
+       "include-function-all-arguments", [ inner; ("sb0", [ print (call "include" [ lit_str "inner"; hash []; M.ELit (M.LBool false); M.ELit (M.LBool true); M.ELit (M.LBool false) ]) ]); ("main", sbx "sb0") ];
+       "include-function-in-set", [ inner; ("sb0", [ M.NSet (bs "z", call "include" [ lit_str "inner"; hash []; M.ELit (M.LBool false) ]); print (var "z") ]); ("main", sbx "sb0") ];
+       "extends-without-blocks", [ layout; ("sb0", [ M.NExtends (lit_str "layout") ]); ("main", sbx "sb0") ];
+       "extends-with-another-block", [ layout; ("sb0", [ M.NExtends (lit_str "layout"); M.NBlock (bs "other", [ text "o" ]) ]); ("main", sbx "sb0") ];
+       "extends-without-blocks-through-only", [ layout; ("e", [ M.NExtends (lit_str "layout") ]); ("sb0", [ include_ ~withs:pass_vars ~only:true (lit_str "e") ]); ("main", sbx "sb0") ];
+       "extends-chain-without-blocks", [ layout; ("mid", [ M.NExtends (lit_str "layout") ]); ("sb0", [ M.NExtends (lit_str "mid") ]); ("main", sbx "sb0") ];
+       "extends-dynamic-without-blocks", [ layout; ("sb0", [ M.NExtends (M.EBin (M.BConcat, lit_str "lay", lit_str "out")) ]); ("main", sbx "sb0") ];
+       "source-function", [ inner; ("sb0", [ print (call "source" [ lit_str "inner" ]) ]); ("main", sbx "sb0") ];
+       "block-function", [ ("sb0", [ M.NBlock (bs "b", [ spy ]); print (call "block" [ lit_str "b" ]) ]); ("main", sbx "sb0") ] ])
+
 let run ~seed ~tier oc =
   let r = mk_rng seed in
   let thorough = tier = "thorough" in
   samename_stream oc;
+  routes_stream oc;
   let exhaustive_len = if thorough then 2 else 1 in
   (* every position x target x policy under every nesting up to exhaustive_len, all boundaries at nesting length 0 *)
   for len = 0 to exhaustive_len do
